@@ -37,7 +37,7 @@ CLAIMS = {
             "real pest Pairs on every case). Known finding F8 (class WsNonAtomic).", "DESIGN.md §4 C02"),
     "C07": ("Theorems C07_skip_token (every Seq/Rep of a translated body carries the defining rule's skip), C07_rule_reference, "
             "C07_inheritance, C07_skip_rules_atomic, C07_no_skip_at_start / _when_off / _at_rule_edges, C07_rep_gives_back, witness "
-            "C07_refuted_ws; tie: V1 + kind-nesting grammar family against the PEG spec / pest. Known finding F2.", "DESIGN.md §4 C07"),
+            "C07_refuted_ws, C07_never_failing_entry_points (NeverFailedTypedNode::parse_with / check_with of MIN = 0 repetitions place their skips as the fallible entry points do); tie: V1 + kind-nesting grammar family against the PEG spec / pest; harness/unitskip nf mode vs the counting specification. Known finding F2.", "DESIGN.md §4 C07"),
     "C17": ("Theorems C17_first_match (+_impl), C17_accessor_unique / _exactly_one, C17_chain, C17_match_choices (all arities), C17_seq, "
             "C17_rep, C17_leaf_text; tie: arities 2..16 (library and macro-generated) x alternative index x overlapping inputs, accessors, "
             "helper chain, match_choices!, sequence/repetition accessors, leaf fields, vs model and an independent oracle.",
